@@ -27,14 +27,27 @@ IdxSmall  == (0 - 2)..2
 IdxEdge   == {0 - 4, 0 - 1, 0, 1, 4}
 RenFull   == {<<i, j>> : i \in 0..4, j \in 0..4}
 RenEdge   == {<<0, 1>>, <<0, 4>>, <<2, 3>>, <<4, 0>>}
+IdxEdge4  == {0 - 3, 0 - 1, 0, 2}
+RenEdge2  == {<<0, 1>>, <<1, 2>>}
 UpdFull   == << <<>>, << <<"a", "S">> >>, << <<"b", "L">>, <<"a", "S">> >>, << <<"_x", "S">>, <<"c", "D">> >> >>
 UpdOne    == << << <<"c", "S">>, <<"a", "D">> >> >>
 UpdShadow == << << <<"c", "S">>, <<"clear", "S">>, <<"b", "S">> >> >>
+\* "l.pop()" / "l.extend[]" / "d.pop(d)" switch the argument variants pop() without index, extend([]) and
+\* pop(k, default) on; they are not operation names of their own
 ListOps   == {"l.setitem", "l.delitem", "l.append", "l.insert", "l.extend", "l.remove", "l.pop", "l.clear",
-              "l.set_child", "l.remove_child", "l.rename_child"}
+              "l.set_child", "l.remove_child", "l.rename_child", "l.pop()", "l.extend[]"}
 DictOps   == {"d.setitem", "d.setattr", "d.delitem", "d.delattr", "d.update", "d.setdefault", "d.pop", "d.popitem",
-              "d.clear", "d.set_child", "d.remove_child", "d.rename_child"}
+              "d.clear", "d.set_child", "d.remove_child", "d.rename_child", "d.pop(d)"}
 AllOps    == ListOps \cup DictOps
+\* narrower alphabets for the longest sequences: remove_child(i) is _del(i), the same code path as del xs[i];
+\* pop() is pop(-1); d.set_child / d.remove_child / del d.k are _set / _del, the code path of d[k] = v / del d[k]
+ListOpsCore == ListOps \ {"l.remove_child", "l.pop()", "l.extend[]"}
+DictOpsCore == DictOps \ {"d.remove_child", "d.set_child", "d.delattr"}
+ListOpsL4 == ListOpsCore \ {"l.set_child", "l.rename_child"}
+DictOpsL4 == DictOpsCore \ {"d.setattr", "d.popitem"}
+IdxNest   == {0 - 1, 0, 1}
+RenTwo    == {<<0, 1>>, <<0, 4>>}
+RenNine   == {<<i, j>> : i \in {0, 2, 4}, j \in {0, 2, 4}}
 
 S(n) == n :> ScalarRec(n)
 Starts == <<
@@ -63,7 +76,8 @@ Starts == <<
 
 V(t, n, k) == [t |-> t, n |-> n, k |-> k]
 Op(name, t, i, i2, key, key2, flag, vals) ==
-    [op |-> name, t |-> t, i |-> i, i2 |-> i2, key |-> key, key2 |-> key2, flag |-> flag, vals |-> vals]
+    [op |-> name, t |-> t, tk |-> [j \in DOMAIN t |-> heap[root].k], i |-> i, i2 |-> i2, key |-> key, key2 |-> key2,
+     flag |-> flag, vals |-> vals]
 LOp(name, t, i, i2, flag, vals) == Op(name, t, i, i2, "", "", flag, vals)
 DOp(name, t, key, key2, flag, vals) == Op(name, t, 0, 0, key, key2, flag, vals)
 
@@ -73,9 +87,9 @@ TargetPaths ==
     (IF Tgt \in {"root", "both"} THEN {<<>>} ELSE {}) \cup
     (IF Tgt \in {"kids", "both"}
      THEN {<<heap[root].cm[j][1]>> : j \in {x \in DOMAIN heap[root].cm :
-                LET c == Lookup(heap, root, <<heap[root].cm[x][1]>>) IN c # 0 /\ IsCont(heap, c)}}
+                LET c == Lookup(heap, root, <<heap[root].cm[x][1]>>, <<heap[root].k>>) IN c # 0 /\ IsCont(heap, c)}}
      ELSE {})
-TKind(tp) == heap[Lookup(heap, root, tp)].k
+TKind(tp) == heap[Lookup(heap, root, tp, [j \in DOMAIN tp |-> heap[root].k])].k
 LT == {tp \in TargetPaths : TKind(tp) = "l"}
 DT == {tp \in TargetPaths : TKind(tp) = "d"}
 
@@ -88,15 +102,15 @@ Start == /\ st = 0
 Do(op) ==
     /\ st # 0 /\ Len(hist) < MaxLen /\ op.op \in OpsOn
     /\ Applicable(heap, root, op)
-    /\ LET r == Apply(heap, root, op)
-       IN heap' = r.h /\ err' = r.err /\ fired' = fired \cup r.fired
+    /\ \E r \in {Apply(heap, root, op)} :      \* (bound through a singleton set: evaluated once)
+           heap' = r.h /\ err' = r.err /\ fired' = fired \cup r.fired
     /\ hist' = Append(hist, op)
     /\ nxt' = nxt + Len(op.vals)
     /\ UNCHANGED <<root, st>>
 
 \* values that compare equal to some element of the list (for remove), plus one that is absent
 RemovableSpecs(tp) ==
-    LET t == Lookup(heap, root, tp)
+    LET t == Lookup(heap, root, tp, [j \in DOMAIN tp |-> heap[root].k])
     IN {vs \in {V(k, n, "") : k \in {"S", "L", "D"}, n \in 1..(nxt - 1)} :
             \E p \in DOMAIN heap[t].py : Matches(heap, heap[t].py[p], vs)} \cup {V("S", 0, "")}
 
@@ -105,10 +119,10 @@ LSetItem     == \E tp \in LT, i \in Idx, k \in ValKinds : Do(LOp("l.setitem", tp
 LDelItem     == \E tp \in LT, i \in Idx : Do(LOp("l.delitem", tp, i, 0, FALSE, <<>>))
 LAppendA     == \E tp \in LT, k \in ValKinds : Do(LOp("l.append", tp, 0, 0, FALSE, <<V(k, nxt, "")>>))
 LInsertA     == \E tp \in LT, i \in Idx, k \in ValKinds : Do(LOp("l.insert", tp, i, 0, FALSE, <<V(k, nxt, "")>>))
-LExtendA     == \E tp \in LT : \/ Do(LOp("l.extend", tp, 0, 0, FALSE, <<>>))
+LExtendA     == \E tp \in LT : \/ "l.extend[]" \in OpsOn /\ Do(LOp("l.extend", tp, 0, 0, FALSE, <<>>))
                                \/ Do(LOp("l.extend", tp, 0, 0, FALSE, <<V("S", nxt, ""), V("L", nxt + 1, "")>>))
 LRemoveA     == \E tp \in LT : \E vs \in RemovableSpecs(tp) : Do(LOp("l.remove", tp, 0, 0, FALSE, <<vs>>))
-LPopA        == \E tp \in LT : \/ Do(LOp("l.pop", tp, 0, 0, FALSE, <<>>))
+LPopA        == \E tp \in LT : \/ "l.pop()" \in OpsOn /\ Do(LOp("l.pop", tp, 0, 0, FALSE, <<>>))
                                \/ \E i \in Idx : Do(LOp("l.pop", tp, i, 0, TRUE, <<>>))
 LClearA      == \E tp \in LT : Do(LOp("l.clear", tp, 0, 0, FALSE, <<>>))
 LSetChild    == \E tp \in LT, i \in Idx, k \in ValKinds : Do(LOp("l.set_child", tp, i, 0, FALSE, <<V(k, nxt, "")>>))
@@ -123,7 +137,7 @@ DUpdateA     == \E tp \in DT, u \in DOMAIN UpdShapes :
                     Do(DOp("d.update", tp, "", "", FALSE,
                            [j \in DOMAIN UpdShapes[u] |-> V(UpdShapes[u][j][2], nxt + j - 1, UpdShapes[u][j][1])]))
 DSetDefaultA == \E tp \in DT, key \in Keys, k \in ValKinds : Do(DOp("d.setdefault", tp, key, "", FALSE, <<V(k, nxt, "")>>))
-DPopA        == \E tp \in DT, key \in Keys, d \in BOOLEAN : Do(DOp("d.pop", tp, key, "", d, <<>>))
+DPopA        == \E tp \in DT, key \in Keys, d \in BOOLEAN : (d => "d.pop(d)" \in OpsOn) /\ Do(DOp("d.pop", tp, key, "", d, <<>>))
 DPopitemA    == \E tp \in DT : Do(DOp("d.popitem", tp, "", "", FALSE, <<>>))
 DClearA      == \E tp \in DT : Do(DOp("d.clear", tp, "", "", FALSE, <<>>))
 DSetChild    == \E tp \in DT, key \in Keys, k \in ValKinds : Do(DOp("d.set_child", tp, key, "", FALSE, <<V(k, nxt, "")>>))
@@ -146,27 +160,19 @@ Inv_Numbered      == Started => Numbered(heap, root)
 Inv_WalkLookup    == Started => WalkLookup(heap, root)
 Inv_EvalAgree     == Started => EvalAgree(heap, root)
 Inv_PathRoundTrip == Started => PathRoundTrip(heap, root)
+\* all of them at once (the heap is walked once per state)
+Inv_Property      == Started => Broken(heap, root) = {}
 \* no deviation makes a difference when all switches are off
 Inv_NoDeviation   == fired = {}
 \* auxiliary contract (not part of C17, refutes the PopitemBroken switch): popitem() on a non-empty mapping returns
-Inv_PopitemWorks  == (Len(hist) > 0 /\ hist[Len(hist)].op = "d.popitem" /\ Len(heap[Lookup(heap, root, hist[Len(hist)].t)].py) > 0)
+Inv_PopitemWorks  == (Len(hist) > 0 /\ hist[Len(hist)].op = "d.popitem" /\ Len(heap[Lookup(heap, root, hist[Len(hist)].t, hist[Len(hist)].tk)].py) > 0)
                         => err # "TypeError"
 \* witness of non-vacuity: some behaviour reaches a list of >= 4 entries and a nested container that was operated on
 Witness == Started /\ Len(hist) = MaxLen /\ err = "" /\ Len(heap[root].py) >= 3
 
 \* every behaviour, one JSON line: history, the state the operations leave, what the last one raised,
 \* whether evaluation raises, the invariants the state breaks and the deviations that made a difference
-OpJ(o) == <<o.op, o.t, o.i, o.i2, o.key, o.key2, o.flag, [j \in DOMAIN o.vals |-> <<o.vals[j].t, o.vals[j].n, o.vals[j].k>>]>>
+OpJ(o) == <<o.op, o.t, o.i, o.i2, o.key, o.key2, o.flag, [j \in DOMAIN o.vals |-> <<o.vals[j].t, o.vals[j].n, o.vals[j].k>>], o.tk>>
 Emit == Started => PrintT(ToJson([st |-> st, ops |-> [j \in DOMAIN hist |-> OpJ(hist[j])], s |-> HeapSeq(heap, root),
                                   e |-> err, ee |-> EvalErr(heap, root), bad |-> Broken(heap, root), f |-> fired]))
-EmitE == Started => (Cardinality(Reach(heap, root)) >= 0)
-EmitF == Started => (Len(Walk(heap, root)) >= 0)
-EmitG == Started => (PathRoundTrip(heap, root) \in BOOLEAN)
-EmitH == Started => (EvalAgree(heap, root) \in BOOLEAN)
-EmitI == Started => (WalkLookup(heap, root) \in BOOLEAN)
-EmitJ == Started => (ViewsAgree(heap, root) \in BOOLEAN /\ Numbered(heap, root) \in BOOLEAN)
-EmitA == Started => (Cardinality(Broken(heap, root)) >= 0)
-EmitB == Started => PrintT(ToJson([st |-> st, ops |-> [j \in DOMAIN hist |-> OpJ(hist[j])], s |-> HeapSeq(heap, root), e |-> err, f |-> fired]))
-EmitC == Started => PrintT(<<st, err>>)
-EmitD == Started => (Len(ToJson([st |-> st, ops |-> [j \in DOMAIN hist |-> OpJ(hist[j])], s |-> HeapSeq(heap, root), e |-> err, f |-> fired])) >= 0)
 =============================================================================
